@@ -527,6 +527,11 @@ func VerifyObjectCopyAccess(ctx context.Context, be backend.Backend, copySource 
 	if !found {
 		return s3err.GetAPIError(s3err.ErrInvalidCopySource)
 	}
+	// the access decision is about the source key: a "?versionId=" suffix
+	// of the copy source (see backend.ParseCopySource) is not part of it
+	if i := strings.LastIndex(srcObject, "?versionId="); i != -1 {
+		srcObject = srcObject[:i]
+	}
 
 	// Get source bucket ACL
 	srcBucketACLBytes, err := be.GetBucketAcl(ctx, &s3.GetBucketAclInput{Bucket: &srcBucket})
